@@ -194,6 +194,18 @@ def directed_known(rng=None):
           flat="PGroup 1 [PGroup 1 [PAgg]; POther]"),
         sel(["a", "c", "m9"])], False, ["a", "c", "m9"], {"nested_group": True}),
         {"t": [[1, 1, 0, 1, 0], [2, 2, 0, 1, 0], [3, 1, 0, 2, 0], [4, 2, 0, 1, 0]], "u": [[1, 0, 0, 0]]}))
+    # F41: an inner join on all columns of both sides keeping the left columns is rewritten to INTERSECT
+    on = "EBin And (EBin Eq (%s) (%s)) (EBin Eq (%s) (%s))" % (col("a", "t"), col("a", "u"), col("b", "t"), col("d", "u"))
+    out.append(("F41-inner-join-rewritten-to-intersect", P.Program([
+        S("select", "select {a, b}", "TExclude [%s]" % "; ".join("(None, %d%%N)" % n(c) for c in ("id", "c", "g"))),   # keeps the qualifier t
+        S("distinct", "group {a, b} (take 1)", "TDistinct", nkeys=2),
+        S("join", "join u=(from u | select {a, d}) (t.a == u.a && t.b == u.d)",
+          "TJoin Inner %d%%N %s (Rel.apply (TSelect [(None, %s); (None, %s)]) U_TABLE) (%s)" % (n("u"), P.coq_names(["a", "d"]), col("a"), col("d"), on),
+          side="Inner", alljoin=True),
+        S("select", "select {t.a, t.b}", "TSelect [(None, %s); (None, %s)]" % (col("a", "t"), col("b", "t")), final=True)],
+        False, ["a", "b"]),
+        # a left row matched by two right rows (multiplicity) and a NULL key (`==` never matches NULL, INTERSECT does)
+        {"t": [[1, 1, 1, 0, 0], [2, 1, 1, 0, 0], [3, 2, None, 0, 0]], "u": [[1, 1, 1, 0], [2, 1, 1, 0], [3, 2, None, 0]]}))
     # C07-N1: a sorted let-bound relation that keeps its sort column, then joined
     s_, u_ = n("s9"), n("u")
 
@@ -267,18 +279,23 @@ def directed_fixed():
           "TGroupAgg [%d%%N] [(Some %d%%N, ASum, %s)]" % (n("a"), n("x908"), col("c")), by=["a"],
           flat="PGroup 1 [PSort [false; false]; PAgg; PTake]"),
         sel(["a", "x908"])], False, ["a", "x908"])))
-    # F41: an inner join on all columns of both sides keeping the left columns is rewritten to INTERSECT
-    on = "EBin And (EBin Eq (%s) (%s)) (EBin Eq (%s) (%s))" % (col("a", "t"), col("a", "u"), col("b", "t"), col("d", "u"))
-    out.append(("F41-inner-join-rewritten-to-intersect", P.Program([
-        S("select", "select {a, b}", "TExclude [%s]" % "; ".join("(None, %d%%N)" % n(c) for c in ("id", "c", "g"))),   # keeps the qualifier t
+    # shapes the independently seeded changes C01/4 and C01/5 need (both right on HEAD):
+    # a windowed derive behind a distinct, used by a filter and then dropped (it must not be evaluated inside the SELECT DISTINCT)
+    out.append(("distinct-then-window", P.Program([
+        S("select", "select {a, b}", "TSelect [(None, %s); (None, %s)]" % (col("a"), col("b"))),
         S("distinct", "group {a, b} (take 1)", "TDistinct", nkeys=2),
-        S("join", "join u=(from u | select {a, d}) (t.a == u.a && t.b == u.d)",
-          "TJoin Inner %d%%N %s (Rel.apply (TSelect [(None, %s); (None, %s)]) U_TABLE) (%s)" % (n("u"), P.coq_names(["a", "d"]), col("a"), col("d"), on),
-          side="Inner", alljoin=True),
-        S("select", "select {t.a, t.b}", "TSelect [(None, %s); (None, %s)]" % (col("a", "t"), col("b", "t")), final=True)],
-        False, ["a", "b"]),
-        # a left row matched by two right rows (multiplicity) and a NULL key (`==` never matches NULL, INTERSECT does)
-        {"t": [[1, 1, 1, 0, 0], [2, 1, 1, 0, 0], [3, 2, None, 0, 0]], "u": [[1, 1, 1, 0], [2, 1, 1, 0], [3, 2, None, 0]]}))
+        S("win", "derive {n9 = count this}", "TWin [] [(Some %d%%N, WAgg ACount, ELit (VInt 1))]" % n("n9"), fn="WAgg ACount"),
+        S("filter", "filter (n9 < 3)", "TFilter (EBin Lt (%s) (ELit (VInt 3)))" % col("n9")),
+        sel(["a", "b"])], False, ["a", "b"]),
+        {"t": [[1, 1, 1, 0, 0], [2, 1, 1, 0, 0], [3, 2, 1, 0, 0], [4, 2, 1, 0, 0]], "u": [[1, 0, 0, 0]]}))
+    # a group whose only key is the literal 1 (position 1 of the select list is the key itself): no rows on empty input
+    out.append(("group-by-literal-one-empty-input", P.Program([
+        S("derive", "derive {k9 = 1}", "TDerive [(Some %d%%N, ELit (VInt 1))]" % n("k9")),
+        S("select", "select {k9, a}", "TSelect [(None, %s); (None, %s)]" % (col("k9"), col("a"))),
+        S("group_agg", "group {k9} (aggregate {n9 = count this, m9 = max a})",
+          "TGroupAgg [%d%%N] [(Some %d%%N, ACount, ELit (VInt 1)); (Some %d%%N, AMax, %s)]" % (n("k9"), n("n9"), n("m9"), col("a")), by=["k9"]),
+        sel(["k9", "n9", "m9"])], False, ["k9", "n9", "m9"]),
+        {"t": [], "u": []}))
     # 3561315: DISTINCT ON and DISTINCT never share a SELECT (judged on the PQ of sql.postgres by the segment validator)
     out.append(("3561315", P.Program([
         S("select", "select {id, a, b}", "TSelect [(None, %s); (None, %s); (None, %s)]" % (col("id"), col("a"), col("b"))),
@@ -286,7 +303,10 @@ def directed_fixed():
           by=["a"], keys=[(False, ("col", None, "b")), (False, ("col", None, "id"))]),
         S("select", "select {a, b}", "TSelect [(None, %s); (None, %s)]" % (col("a"), col("b"))),
         S("distinct", "group {a, b} (take 1)", "TDistinct", nkeys=2)], False, ["a", "b"])))
-    return [(e[0], e[1]) for e in out]      # instances come from the caller (a fixed instance, where given, is dropped)
+    for e in out:
+        if len(e) > 2:
+            e[1].meta["instance"] = e[2]      # a telling instance, for callers that want it (they supply random ones otherwise)
+    return [(e[0], e[1]) for e in out]
 
 
 def append_pruned(sql):
